@@ -139,6 +139,76 @@ func c19r2(c *Check) {
 	} else {
 		c.Hold("validate.Ordered hash use in one critical section", c.AtFn(fn), "no shared hash object operations")
 	}
+	// the shared hasher is empty whenever a key is written into it: on every path either a Reset
+	// precedes the first Write (enter-clean), or a Reset follows the last Write before the function
+	// returns (leave-clean) — consistently for all paths
+	if len(hashOps) > 0 {
+		isShared := func(in ssa.Instruction) bool {
+			call := in.(*ssa.Call)
+			u, ok := call.Call.Value.(*ssa.UnOp)
+			if !ok {
+				return false
+			}
+			_, isG := u.X.(*ssa.Global)
+			return isG
+		}
+		shared := false
+		for _, h := range hashOps {
+			if isShared(h) {
+				shared = true
+			}
+		}
+		if shared {
+			cfg := &PathCfg{Classify: func(in ssa.Instruction) []string {
+				call, ok := in.(*ssa.Call)
+				if !ok || !call.Call.IsInvoke() {
+					return nil
+				}
+				switch call.Call.Method.Name() {
+				case "Write", "Sum64", "Reset":
+					if isShared(in) {
+						return []string{"h." + call.Call.Method.Name()}
+					}
+				}
+				return nil
+			}}
+			paths, trunc := EnumPaths(fn, nil, cfg)
+			enterClean, leaveClean := true, true
+			var w1, w2 string
+			for i := range paths {
+				pa := &paths[i]
+				if pa.End != "return" || !pa.Has("h.Write") {
+					continue
+				}
+				firstW, lastW, firstR, lastR := -1, -1, -1, -1
+				for j, e := range pa.Events {
+					switch e.Class {
+					case "h.Write":
+						if firstW < 0 {
+							firstW = j
+						}
+						lastW = j
+					case "h.Reset":
+						if firstR < 0 {
+							firstR = j
+						}
+						lastR = j
+					}
+				}
+				if !(firstR >= 0 && firstR < firstW) {
+					enterClean = false
+					w1 = pa.String()
+				}
+				if !(lastR > lastW) {
+					leaveClean = false
+					w2 = pa.String()
+				}
+			}
+			okH := !trunc && (enterClean || leaveClean)
+			det := "some path returns with the key's bytes still in the shared hasher (" + w2 + ") and some path writes without resetting first (" + w1 + "): the next name is hashed together with the leftover bytes, lands under a key that was never seen and is accepted unchecked, while the real register is not updated"
+			c.Judge(okH, "validate.Ordered leaves the shared hasher empty", c.AtFn(fn), fmt.Sprintf("%d paths: Reset on every path", len(paths)), det)
+		}
+	}
 }
 
 func c19r3(c *Check) {
